@@ -23,8 +23,31 @@ def run_shard(ctx):
     bks = c03.backends(ctx)
     strat = qmgen.history(qmgen.configs(bks, pools=True, bounce=True), WEIGHTS, fail_heavy=True, bodies=True)
     qmgen.drive_histories(ctx, OWN, strat, ctx.n(4000, 40000), nontrivial)
+    # the real SMTP / LMTP relays in front of a scripted peer: every recipient rejected, each with its own 5xx reply
+    from vf import relaykinds
+    k = 0
+    for kind in ('smtp', 'lmtp'):
+        for n in (2, 3):
+            for verdicts in (['rcpt5'] * n, ['rcpt5'] * (n - 1) + ['ok'], ['ok'] + ['rcpt5'] * (n - 1)):
+                k += 1
+                if not ctx.mine(k):
+                    continue
+                case = {'family': 'relay-kinds', 'kind': kind, 'nrcpt': n, 'sender': True, 'backoff': [],
+                        'rounds': [dict(('r%d' % i, v) for i, v in enumerate(verdicts))]}
+                fails = [(s_, m) for s_, m in relaykinds.run_case(case) if s_.startswith('C13')]
+                ctx.record(repr(case), True, labels=['relay-kinds', 'kind=' + kind], case=case, failures=fails)
 
 
 def replay(case):
+    if case.get('family') == 'relay-kinds':
+        from vf import relaykinds
+        try:
+            case = dict(case, nrcpt=max(1, min(3, int(case['nrcpt']))), backoff=[float(x) for x in case.get('backoff', [])][:4],
+                        rounds=[r for r in case.get('rounds', []) if isinstance(r, dict)])
+            if case.get('kind') not in ('smtp', 'lmtp'):
+                return []
+            return [(s_, m) for s_, m in relaykinds.run_case(case) if s_.startswith('C13')]
+        except (KeyError, ValueError, TypeError):
+            return []
     fails, _, _ = qm.run_history(case['cfg'], case.get('actions', []), OWN)
     return fails
